@@ -79,13 +79,41 @@ Theorem C11_tree_independent_of_sharding_and_batching :
 Proof. exact Trees.jtree_independent_of_sharding_and_batching. Qed.
 Print Assumptions C11_tree_independent_of_sharding_and_batching.
 
+(* ... and their result does not depend on the order in which the storage returns the series of
+   any selector (DistEquiv.jsim relates two plans that differ in the order of the (labels, samples)
+   pairs of their leaves - and, for C10, in distributed forms of subexpressions): at every step the
+   two plans return the same labelled samples, for any shard counts and batch sizes. *)
+From Verif Require DistTree DistEquiv.
+Theorem C11_tree_independent_of_series_order :
+  forall cf w t t' ts, (0 < c_shards cf)%nat -> (0 < c_batch cf)%nat -> 0 <= c_lookback cf ->
+  wf_window w -> Bin.noT < w_start w ->
+  DistEquiv.jsim t t' -> Trees.jok t -> Trees.jok t' -> In ts (grid w) ->
+  exists outs outs',
+    Trees.jrun cf w t = inl outs /\ Trees.jrun cf w t' = inl outs' /\
+    forall R, Trees.jref (c_lookback cf) t ts = Some R ->
+      Permutation.Permutation (Bin.labelled Z (Trees.jseries t) (DistTree.step_of outs ts))
+                              (Bin.labelled Z (Trees.jseries t') (DistTree.step_of outs' ts)).
+Proof. exact DistEquiv.distributed_plan_equals_central. Qed.
+Print Assumptions C11_tree_independent_of_series_order.
+
+(* non-vacuity: the same join with the series of both selectors in another order *)
+Example C11_series_order_example :
+  let p := Trees.mkJP (fun x y => ((x + y)%Z, true)) (fun _ => 0%Z) true [1%N] [] Bin.OneToOne false true in
+  let l1 := [[(0, 10); (1, 20)]; [(0, 10); (1, 21)]]%N in let d1 := [[mkS 990 (Some 2)]; [mkS 995 (Some 5)]] in
+  let l2 := [[(0, 11); (1, 21)]; [(0, 11); (1, 20)]]%N in let d2 := [[mkS 980 (Some 100)]; [mkS 985 (Some 200)]] in
+  DistEquiv.jsim (Trees.JJoin p (Trees.JLeaf l1 d1 0 None) (Trees.JLeaf l2 d2 0 None))
+                 (Trees.JJoin p (Trees.JLeaf (rev l1) (rev d1) 0 None) (Trees.JLeaf (rev l2) (rev d2) 0 None)).
+Proof.
+  cbv zeta. apply DistEquiv.sim_join; apply DistEquiv.sim_leaf_order; try reflexivity; simpl; apply Permutation.perm_swap.
+Qed.
+
 (* PARTIAL. Proved: independence of the shard count and of batching for every
    operator tree, with each operator's Next taken as atomic and the coalesce
    merging in operator order (as the code does since the fix recorded in
    known_findings.json); for the join, independence of the series order and
    numbering; for aggregations with commuting accumulators, independence of
-   the order inside the step vectors. Not proved here: invariance of whole operator trees under
-   permutations of the storage's series order and under unrelated series (these
-   change the series indices; the statement would be up to a renaming of IDs),
-   and true goroutine interleavings inside an operator (not expressible in a
+   the order inside the step vectors; for whole operator trees, independence of the
+   order in which the storage returns the series (as labelled samples: sample IDs are renamed).
+   Not proved here: unrelated series in the storage (they never reach a leaf of the model:
+   the leaves hold the matched series) and true goroutine interleavings inside an operator (not expressible in a
    functional model). Those are decided by the procs/perm oracles of the check. *)
